@@ -146,15 +146,15 @@ SpecAllReleased == Spec /\ \A w \in Worker : WF_vars(FinishLong(w))
 
 -----------------------------------------------------------------------------
 \* C07, safety part
-InQueue(t)   == \E i \in 1..Len(queue) : queue[i] = t
+InQueue(t)   == \E i \in DOMAIN queue : queue[i] = t
 Held(t)      == \E w \in Worker : cur[w] = t /\ pc[w] \in {"got", "running"}
 ExactlyOnce  == \A t \in Task : runs[t] <= 1 /\ (fin[t] => runs[t] = 1)
 NoLoss       == \A t \in Task : t < next => (fin[t] \/ InQueue(t) \/ Held(t))
 NoDuplicate  == \A t \in Task : ~(InQueue(t) /\ (Held(t) \/ fin[t]))
-                /\ \A i, j \in 1..Len(queue) : queue[i] = queue[j] => i = j
+                /\ \A i, j \in DOMAIN queue : queue[i] = queue[j] => i = j
                 /\ \A v, w \in Worker : (v # w /\ cur[v] # NONE) => cur[v] # cur[w]
 MutexOK      == (lock # NONE) => pc[lock] \in (IF HoldLock THEN {"locked", "got", "running"} ELSE {"locked"})
-Fifo         == \A i, j \in 1..Len(queue) : i < j => queue[i] < queue[j]
+Fifo         == \A i, j \in DOMAIN queue : i < j => queue[i] < queue[j]
 Safety       == TypeOK /\ ExactlyOnce /\ NoLoss /\ NoDuplicate /\ MutexOK /\ Fifo
 
 \* C07, progress part
